@@ -197,10 +197,13 @@ class Rebalance(Contract):
     def spec(self, c):
         """the trades to emit, computed on the pre-state with NLV after the interest accrual"""
         I = c.I
+        if "spec" in c.ghost:
+            return c.ghost["spec"]
         amt, l0 = self.interest(c)
         E1 = ghost.gsum(I, EquityFam(c.self), c.old) + amt
         S = TradeSpec(I, c.old, c.rebalancing, c.self)
         S.E = E1
+        c.ghost["spec"] = (S, E1, amt, l0)
         return S, E1, amt, l0
 
     def conds(self, c):
